@@ -5,6 +5,7 @@ package main
 
 import (
 	"go/ast"
+	"go/token"
 	"regexp"
 	"strings"
 
@@ -64,6 +65,17 @@ func flattenBody(p *packages.Package, fd *ast.FuncDecl, subst map[string]string,
 		case *ast.BlockStmt:
 			walk(x.List)
 		case *ast.IfStmt:
+			// `if !c { A } else { B }` is flattened as `if c { B } else { A }`
+			if u, ok := ast.Unparen(x.Cond).(*ast.UnaryExpr); ok && u.Op == token.NOT && x.Else != nil {
+				if eb, ok := x.Else.(*ast.BlockStmt); ok {
+					emit(x, "if", x.Init, u.X)
+					walk(eb.List)
+					out = append(out, flatStmt{"else", x.Body})
+					walk(x.Body.List)
+					out = append(out, flatStmt{"end-if", x})
+					return
+				}
+			}
 			emit(x, "if", x.Init, x.Cond)
 			walk(x.Body.List)
 			if x.Else != nil {
